@@ -130,16 +130,46 @@ class UTPM(Ring, RawAlgorithmsMixIn):
         else:
             raise NotImplementedError()
 
+    @staticmethod
+    def _separated_index(sl):
+        """ True if the index tuple sl holds index arrays (or integers next to index arrays) that
+        are separated by a slice, an Ellipsis or a newaxis: NumPy then puts the axes of the index
+        arrays FIRST, i.e. in front of the (D,P) axes when the index is applied to self.data """
+        if not any(isinstance(s, (list, numpy.ndarray)) for s in sl):
+            return False
+        adv = [n for n, s in enumerate(sl) if isinstance(s, (list, numpy.ndarray, int, numpy.integer))]
+        return any(isinstance(s, slice) or s is Ellipsis or s is None for s in sl[adv[0]:adv[-1]])
+
+    @staticmethod
+    def _DP_last(data, sl, d = slice(None)):
+        """ view of data with the (D,P) axes moved to the end, and the index that applies sl to the
+        leading (array) axes and d to the D axis; used for indices with separated index arrays """
+        if not any(s is Ellipsis for s in sl):
+            sl = sl + (Ellipsis,)
+        return numpy.moveaxis(data, (0,1), (-2,-1)), sl + (d, slice(None))
+
     def __getitem__(self, sl):
         if not isinstance(sl, tuple):
             sl = (sl,)
+        if self._separated_index(sl):
+            data, idx = self._DP_last(self.data, sl)
+            return self.__class__(numpy.moveaxis(data[idx], (-2,-1), (0,1)))
         tmp = self.data.__getitem__((slice(None),slice(None)) + sl)
         return self.__class__(tmp)
 
     def __setitem__(self, sl, rhs):
+        if not isinstance(sl, tuple):
+            sl = (sl,)
+        if self._separated_index(sl):
+            data, idx = self._DP_last(self.data, sl)
+            if isinstance(rhs, UTPM):
+                data[idx] = numpy.moveaxis(rhs.data, (0,1), (-2,-1))
+            else:
+                rhs = numpy.array(rhs)
+                data[self._DP_last(self.data, sl, slice(1,None))[1]] = 0
+                data[self._DP_last(self.data, sl, 0)[1]] = rhs.reshape(rhs.shape + (1,))
+            return
         if isinstance(rhs, UTPM):
-            if not isinstance(sl, tuple):
-                sl = (sl,)
             idx = (slice(None),slice(None)) + sl
             x_data, y_data = UTPM._broadcast_arrays(self.data.__getitem__(idx), rhs.data)
             if not numpy.may_share_memory(x_data, self.data):
@@ -190,7 +220,11 @@ class UTPM(Ring, RawAlgorithmsMixIn):
                 # (repeated indices accumulate)
                 if not isinstance(sl, tuple):
                     sl = (sl,)
-                numpy.add.at(out[0].data, (slice(None), slice(None)) + sl, ybar.data)
+                if cls._separated_index(sl):
+                    data, idx = cls._DP_last(out[0].data, sl)
+                    numpy.add.at(data, idx, numpy.moveaxis(ybar.data, (0,1), (-2,-1)))
+                else:
+                    numpy.add.at(out[0].data, (slice(None), slice(None)) + sl, ybar.data)
             else:
                 out[0][sl] = ybar
 
